@@ -7,11 +7,13 @@
    executable model of the compiler algorithm itself (Table.add / Linkage / Index / __iter__), which must emit
    symbol for symbol the table the real compiler emits (correspondence).
    (4) Compiler correctness of the model (Proofs/C01Prim, C01Blocks, C01Inv, C01Step, C01Emit, C01Canon, C01Main): for
-   every well-formed segment WITHOUT persistent groups (no asset accessor, or one that lists none of the segment's
-   stateful groups) and EVERY order in which Traversal.each may hand the nodes to Table.add, compilation succeeds and the
-   emitted table is accepted by the validator - hence (with (2)) evaluates at every node to the graph value.
-   PARTIAL: with persistent groups (loader re-keying, dumper / committer wiring) acceptance of the model's output is not
-   proved for all graphs; it is checked by vm_compute for every generated segment, and for the witness below. *)
+   every well-formed segment, every asset accessor (any subset / order of persistent groups whose trained members are
+   all inside or all outside the segment) and EVERY order in which Traversal.each may hand the nodes to Table.add,
+   compilation succeeds and the emitted table is accepted by the validator - hence (with (2)) it evaluates at every
+   node to the graph value and at the committer to the trained states at their list positions.
+   What remains outside the theorems: the tie between this model and forml/flow/_code/compiler.py (symbol-for-symbol
+   comparison on every generated segment), the traversal itself (the visiting order is an arbitrary permutation here,
+   recorded from the real run there) and the runners that execute the table (C02). *)
 Require Import List Bool ZArith.
 From FV Require Import Lib.Sym Model.C01 Proofs.C01 Model.C01Compile Proofs.C01Compile Proofs.C01Main.
 Import ListNotations.
@@ -74,33 +76,36 @@ Theorem C01_commit_sound : forall a nodes t l c, a = Some l -> validate a nodes 
 Proof. exact commit_sound. Qed.
 Print Assumptions C01_commit_sound.
 
-(* compiler correctness without persistent groups: every well-formed segment (wfb: every port fed by an earlier
-   non-trained node's existing output port, trained members stateful and unique in their group and listed before its
-   applied members), every permutation of the nodes as visiting order: the compiler model succeeds and the validator
-   accepts what it emits *)
-Theorem C01_compile_correct_partial : forall a nodes visit,
-  wfb a nodes visit = true -> nopers_b a nodes = true -> compile_ok a nodes visit = true.
+(* compiler correctness: every well-formed segment (wfb: every port fed by an earlier non-trained node's existing output
+   port; a trained member is stateful, unique in its group and listed before its applied members; the accessor lists
+   every group once and either all or none of the listed groups are trained in the segment; the visiting order is a
+   permutation of the nodes): the compiler model succeeds - no assertion of Table.add, Linkage.insert, Index.set or
+   Linkage.leaves fires, every argument resolves - and the validator accepts what it emits *)
+Theorem C01_compile_correct : forall a nodes visit, wfb a nodes visit = true -> compile_ok a nodes visit = true.
 Proof. exact compile_correct. Qed.
-Print Assumptions C01_compile_correct_partial.
+Print Assumptions C01_compile_correct.
 
-(* ... hence executing the compiled table yields at every node exactly the value of direct graph evaluation *)
-Theorem C01_compile_dataflow_partial : forall a nodes visit,
-  wfb a nodes visit = true -> nopers_b a nodes = true ->
+(* ... hence executing the compiled table yields at every node exactly the value of direct graph evaluation, and at
+   the committer the states trained in this run, one per persistent group at its list position *)
+Theorem C01_compile_dataflow : forall a nodes visit, wfb a nodes visit = true ->
   exists t, bind (compile a nodes visit) canon = Some t
-    /\ forall i n, nth_error nodes i = Some n ->
-         exists p, pos t i = Some p /\ forall fuel, 2 * i + 2 <= fuel -> eval fuel a nodes t p = Some (node_term a nodes i).
+    /\ (forall i n, nth_error nodes i = Some n ->
+          exists p, pos t i = Some p /\ forall fuel, 2 * i + 2 <= fuel -> eval fuel a nodes t p = Some (node_term a nodes i))
+    /\ (forall l c, a = Some l -> find_pos (fun s => match fst s with OCommitter => true | _ => false end) t = Some c ->
+          forall fuel, 2 * List.length nodes + 4 <= fuel -> eval fuel a nodes t c = Some (TTup (commit_states a nodes l))).
 Proof.
-  intros a nodes visit Hw Hn. pose proof (compile_correct a nodes visit Hw Hn) as H. unfold compile_ok in H.
+  intros a nodes visit Hw. pose proof (compile_correct a nodes visit Hw) as H. unfold compile_ok in H.
   destruct (bind (compile a nodes visit) canon) as [t|]; [|discriminate]. exists t. split; [reflexivity|].
-  apply andb_prop in H. exact (validate_sound a nodes t (proj1 H)).
+  apply andb_prop in H. destruct H as [Hv Hc]. split; [exact (validate_sound a nodes t Hv)|].
+  intros l c Ha Hf. exact (commit_sound a nodes t l c Ha Hv Hc Hf).
 Qed.
-Print Assumptions C01_compile_dataflow_partial.
+Print Assumptions C01_compile_dataflow.
 
 Example C01_compile_correct_witness :
   let nodes := [Node 0 0 0 false 2 (KApply []); Node 1 0 1 true 1 (KTrain (0, 0) (0, 1));
                 Node 1 0 1 true 1 (KApply [(0, 0)]); Node 2 0 2 false 1 (KApply [(2, 0); (0, 1)])]%nat%Z in
-  wfb None nodes [3; 0; 2; 1]%nat = true /\ nopers_b None nodes = true
-  /\ wfb (Some [(7%nat, TNone)]) nodes [0; 1; 2; 3]%nat = true /\ nopers_b (Some [(7%nat, TNone)]) nodes = true.
+  wfb None nodes [3; 0; 2; 1]%nat = true /\ wfb (Some [(1%nat, TNone)]) nodes [0; 2; 3; 1]%nat = true
+  /\ wfb (Some [(7%nat, TNone)]) nodes [0; 1; 2; 3]%nat = true.
 Proof. vm_compute. repeat split. Qed.
 
 (* non-vacuity: the compiler model's table for a fork group with a multi-output source under a persistent accessor,
